@@ -114,6 +114,9 @@ GroupsOf(Fam) ==
       [] Fam = "powsp" -> PowBases
       [] Fam = "arith" -> ArithVals
       [] Fam = "consts" -> {"huge", "pi"}
+      [] Fam = "logs" -> {<<"p10", k>> : k \in -22..22} \cup {PosZero, NegZero, I(1), I(-1), <<"q", -5, -1>>, Inf(1), Inf(-1)}
+      [] Fam = "fmtbad" -> (33..126) \ ({99, 100, 105, 111, 117, 120, 88, 101, 69, 102, 103, 71, 113, 115, 37, 46}
+                                        \cup FlagBytes \cup (48..57))
 
 
 Call(f, args) == <<f, args>>
@@ -168,6 +171,12 @@ CasesOf(Fam, g) ==
            \cup {Call(f, <<g>>) : f \in {"floor", "ceil", "abs", "modf", "sqrt"}}
            \cup (IF IsFinite(g) THEN {Call("frexp", <<g>>), Call("ldexp", <<g, I(3)>>), Call("ldexp", <<g, I(-2000)>>)} ELSE {})
       [] Fam = "consts" -> {Call(g, <<>>)}
+      [] Fam = "logs" -> IF g[1] = "p10" THEN {Call("log10", <<g>>)} ELSE {Call(f, <<g>>) : f \in {"log10", "log", "exp"}}
+      [] Fam = "fmtbad" ->
+           (* a conversion character outside Lua's list (also * and [ of C / Go) is an error *)
+           {Call("format", <<S(<<91, 37>> \o pre \o <<g>> \o post \o <<93>>)>> \o as) :
+                pre \in {<<>>, <<53>>, <<45>>, <<46, 50>>, <<48, 52>>}, post \in {<<>>, <<100>>, <<49, 93, 100>>},
+                as \in {<<I(5)>>, <<I(5), I(3)>>, <<S(<<97>>)>>}}
       [] Fam = "ldexpw" ->
            {Call("ldexp", <<g, I(k)>>) : k \in WideShifts} \cup {Call("ldexp", <<g, I(-k)>>) : k \in WideShifts}
            \cup {Call("frexp", <<g>>)}
